@@ -3,6 +3,7 @@ from framework import Case
 
 PROP = 'C07'
 BUILDS = ['safe', 'unsafe']
+OPT_BUILDS = {'unsafe': 'unsafe-opt'}   # thorough tier: the unsafe cases again at opt-level 3
 RULE = ('storages arr|vec (both builds) and uarr|uvec (build with the `unsafe` feature); sizes 1…9; array capacities every '
         'value N+1 … 3N (capacity = N+1 and capacity < 2N make the rewind overlap), vector multiples 2…4; element types '
         'u8/u32/u64 and 12-/24-byte structs; one deterministic sweep case per (storage, size, capacity) with 3·cap+2 distinct values plus random '
